@@ -21,7 +21,8 @@ static Weights profile_weights(const std::string &prop) {
          {P::O_SUB, 8}, {P::O_UNSUB, 2.5}, {P::O_TELL, 9}, {P::O_PUB, 9}, {P::O_BCAST, 3}, {P::O_FLOOD, 0.05},
          {P::O_BECOME, 2}, {P::O_UNBECOME, 2}, {P::O_UNSTASH, 2}, {P::O_BATCH_SIZE, 1.5}, {P::O_BATCH_TIMEOUT, 0.2},
          {P::O_DROP_EVT, 0.7}, {P::O_DROP_MODREF, 0.7}, {P::O_LOOKUP, 0.5},
-         {P::O_FD_REG, 1.5}, {P::O_FD_DEREG, 0.7}, {P::O_FD_WRITE, 2}, {P::O_FD_READ, 0.3}, {P::O_TMR_REG, 0.3}, {P::O_TMR_DEREG, 0.15}};
+         {P::O_FD_REG, 1.5}, {P::O_FD_DEREG, 0.7}, {P::O_FD_WRITE, 2}, {P::O_FD_READ, 0.3}, {P::O_TMR_REG, 0.3}, {P::O_TMR_DEREG, 0.15},
+         {P::O_SRC_REG, 0.8}, {P::O_SRC_DEREG, 0.4}, {P::O_SRC_FIRE, 0.8}, {P::O_TASK_RELEASE, 0.4}};
     s = {{P::O_QUIT, 1}, {P::O_CTX_PROBE, 0.7}, {P::O_REG, 0.7}, {P::O_DEREG, 1.5}, {P::O_START, 2}, {P::O_PAUSE, 1.5}, {P::O_RESUME, 1}, {P::O_STOP, 1.5}, {P::O_PILL, 0.5},
          {P::O_SUB, 3}, {P::O_UNSUB, 1.5}, {P::O_TELL, 4}, {P::O_PUB, 4}, {P::O_BCAST, 1}, {P::O_BECOME, 1.5}, {P::O_UNBECOME, 1.5}, {P::O_STASH, 3}, {P::O_UNSTASH, 1.5},
          {P::O_BATCH_SIZE, 0.7}, {P::O_REF_EVT, 0.8}, {P::O_DROP_EVT, 0.4}, {P::O_FD_REG, 0.5}, {P::O_FD_DEREG, 0.3}, {P::O_FD_WRITE, 0.5}, {P::O_ERRNO, 0.5},
@@ -37,7 +38,7 @@ static Weights profile_weights(const std::string &prop) {
     else if (prop == "C19") { scale(t, {P::O_SUB, P::O_START, P::O_PAUSE, P::O_RESUME, P::O_STOP, P::O_QUIT}, 1.6); t[P::O_SET_TICK] = 0.15; }
     else if (prop == "C07") { t[P::O_CTX_REG] = 3; t[P::O_CTX_DEREG] = 3; t[P::O_CTX_FINALIZE] = 1; t[P::O_CTX_PROBE] = 3; scale(t, {P::O_REG, P::O_DEREG}, 1.8); s[P::O_CTX_DEREG] = 0.8; }
     else if (prop == "C15") { scale(t, {P::O_REG, P::O_LOOKUP, P::O_CTX_PROBE}, 2); scale(s, {P::O_QUIT, P::O_CTX_PROBE, P::O_CTX_DEREG}, 3); s[P::O_SET_TICK] = 0.5; s[P::O_CTX_FINALIZE] = 0.3; }
-    else if (prop == "C03" || prop == "C20") { scale(t, {P::O_FD_REG, P::O_FD_DEREG, P::O_FD_WRITE, P::O_TMR_REG, P::O_TMR_DEREG}, 3); scale(s, {P::O_ERRNO}, 4); }
+    else if (prop == "C03" || prop == "C20") { scale(t, {P::O_FD_REG, P::O_FD_DEREG, P::O_FD_WRITE, P::O_TMR_REG, P::O_TMR_DEREG, P::O_SRC_REG, P::O_SRC_DEREG, P::O_SRC_FIRE, P::O_TASK_RELEASE}, 3); scale(s, {P::O_ERRNO}, 4); }
     else if (prop == "C09") { scale(t, {P::O_FD_REG, P::O_FD_DEREG, P::O_TMR_REG, P::O_TMR_DEREG, P::O_SUB, P::O_UNSUB}, 3); }
     else if (prop == "C18") {
         t = {{P::O_SET_TB, 4}, {P::O_TELL, 26}, {P::O_PUB, 6}, {P::O_BCAST, 2}, {P::O_SUB, 4}, {P::O_UNSUB, 1}, {P::O_BECOME, 2}, {P::O_UNBECOME, 2}, {P::O_BATCH_SIZE, 1},
@@ -83,7 +84,9 @@ static rc::Gen<Op> gen_op_from(const std::map<int, double> &w, int nmods, const 
         case P::O_TMR_REG: ga = gens::range<long>(0, 6); gb = gens::weighted_values<long>({{4, 0}, {1, 1}, {1, 3}, {2, 4}}); break;
         case P::O_TMR_DEREG: ga = gens::range<long>(0, 6); break;
         case P::O_ERRNO: ga = gens::weighted_values<long>({{1, 4}, {1, 11}, {2, 2}, {2, 9}, {1, 32}, {1, 255}, {1, 22}}); break;
-        case P::O_SRC_REG: case P::O_SRC_DEREG: ga = gens::range<long>(1, 8); gb = gens::weighted_values<long>({{5, 0}, {5, 1}, {4, 2}, {3, 3}, {2, 4}, {2, 5}, {4, 6}, {4, 7}, {3, 8}, {2, 9}, {2, 10}, {2, 11}, {2, 99}}); break;
+        case P::O_SRC_REG: case P::O_SRC_DEREG: if (prop != "C09reg") { ga = gens::range<long>(3, 8); gb = gens::range<long>(0, 3); break; } ga = gens::range<long>(1, 8); gb = gens::weighted_values<long>({{5, 0}, {5, 1}, {4, 2}, {3, 3}, {2, 4}, {2, 5}, {4, 6}, {4, 7}, {3, 8}, {2, 9}, {2, 10}, {2, 11}, {2, 99}}); break;
+        case P::O_SRC_FIRE: ga = gens::weighted_values<long>({{1, 3}, {1, 4}, {1, 5}}); gb = gens::range<long>(0, 3); break;
+        case P::O_TASK_RELEASE: ga = gens::range<long>(0, 3); break;
         case P::O_SET_TB: ga = gens::weighted_values<long>({{1, 0}, {2, 50}, {3, 100}, {3, 200}, {2, 500}, {2, 1000}, {1, 333}}); gb = gens::range<long>(1, 9); break;
         case P::O_SLEEP: ga = gens::weighted_values<long>({{2, 1}, {2, 3}, {1, 8}, {1, 25}}); break;
         default: break;
@@ -160,7 +163,22 @@ static rc::Gen<std::vector<Op>> gen_phrase(const Weights &w, int nmods, const st
         }
         v.push_back(mkop(P::O_DISPATCH, 0, 0, std::get<5>(t)));
         return v; });
-    if (prop == "C02" || prop == "C04") return gens::weighted<std::vector<Op>>({{97, gens::weighted<std::vector<Op>>({{45, single}, {12, deliver}, {22, pubdeliver}, {6, burst}, {6, loopcycle}, {2, become_cycle}, {2, stash_cycle}, {2, batch}, {2, fdcycle}})}, {3, overflow}});
+    auto livecycle = gen::map(gen::tuple(slot, gens::weighted_values<long>({{3, 3}, {3, 4}, {3, 5}, {3, 6}, {1, 7}}), gens::range<long>(0, 3), gens::range<long>(1, 4), gens::range<long>(0, 4)), [](std::tuple<int, long, long, long, long> t) {
+        int s = std::get<0>(t); long kind = std::get<1>(t), key = std::get<2>(t);
+        std::vector<Op> v{mkop(P::O_SRC_REG, s, 0, kind, key)};
+        if (std::get<4>(t) == 0) v.push_back(mkop(P::O_SRC_REG, s, 0, kind, key)); // duplicate
+        if (kind == 6) v.push_back(mkop(P::O_TASK_RELEASE, 0, 0, key)); else v.push_back(mkop(P::O_SRC_FIRE, 0, 0, kind, key));
+        v.push_back(mkop(P::O_DISPATCH, 0, 0, std::get<3>(t)));
+        if (std::get<4>(t) == 1) v.push_back(mkop(P::O_SRC_DEREG, s, 0, kind, key));
+        if (std::get<4>(t) == 2) v.push_back(mkop(P::O_STOP, s));
+        return v; });
+    if (prop == "C03" || prop == "C20" || prop == "C09" || prop == "C04") {
+        size_t lw = prop == "C04" ? 6 : 18;
+        auto rest = (prop == "C04") ? gens::weighted<std::vector<Op>>({{55, single}, {10, deliver}, {10, pubdeliver}, {4, burst}, {6, loopcycle}, {3, become_cycle}, {4, stash_cycle}, {3, batch}, {5, fdcycle}, {3, overflow}})
+                                   : gens::weighted<std::vector<Op>>({{50, single}, {8, deliver}, {8, pubdeliver}, {3, burst}, {8, loopcycle}, {1, become_cycle}, {1, stash_cycle}, {2, batch}, {18, fdcycle}});
+        return gens::weighted<std::vector<Op>>({{100 - lw, rest}, {lw, livecycle}});
+    }
+    if (prop == "C02") return gens::weighted<std::vector<Op>>({{97, gens::weighted<std::vector<Op>>({{45, single}, {12, deliver}, {22, pubdeliver}, {6, burst}, {6, loopcycle}, {2, become_cycle}, {2, stash_cycle}, {2, batch}, {2, fdcycle}})}, {3, overflow}});
     std::map<std::string, std::vector<size_t>> tab = {
         //            single deliver pub burst loop become stash batch tb fd
         {"C01", {70, 8, 6, 1, 8, 2, 1, 1, 0, 1}}, {"C02", {45, 12, 22, 6, 6, 2, 1, 2, 0, 1}}, {"C03", {45, 10, 8, 4, 8, 1, 1, 2, 0, 18}},
